@@ -239,6 +239,32 @@ def run(world, rep, tier, only=None):
                "no call reachable from the refusing test of %s sets one of those features again: %s" % (sorted(feats), late))
     rep.floor("C07.g refusing feature tests in PRS", n_ref, 5)
 
+    # ------------------------------------------------------------------ C07.h the orphan file is charged what was allocated for it
+    # ext2fs_create_orphan_file() lets a block walk allocate the file's blocks - the data blocks and, on a file system
+    # without extents, the indirect blocks the walk needs.  i_blocks is what the walk allocated: a counter advanced in the
+    # callback next to the allocation and added with ext2fs_iblk_add_blocks(); a count derived from the file's length
+    # leaves the mapping blocks out ("i_blocks is 256, should be 264" on the fresh file system).
+    ORPH = "lib/ext2fs/orphan.c"
+    cof = prog.fn("ext2fs_create_orphan_file", ORPH)
+    adds = calls_to(cof, "ext2fs_iblk_add_blocks")
+    sets_ = calls_to(cof, "ext2fs_iblk_set")
+    rep.floor("C07.h i_blocks accounting calls in ext2fs_create_orphan_file", len(adds) + len(sets_), 1)
+    for i, c in enumerate(sets_):
+        rep.ob("C07.h", site(cof, "ext2fs_iblk_set() only resets the count#%d" % i), T.const(arg(c, 2)) == 0,
+               "third argument `%s` is 0 (the count itself is added from the allocation counter)" % T.pp(arg(c, 2))[:30])
+    charged = False
+    for c in adds:
+        lf = T.last_field(T.strip(arg(c, 2)) or {}) if isinstance(arg(c, 2), dict) else None
+        if not lf:
+            continue
+        for g in prog.fns_in_file(ORPH):
+            al = calls_to(g, "ext2fs_new_block2", "ext2fs_new_block3", "ext2fs_block_alloc_stats2")
+            for n in g.events("S"):
+                if T.last_field(n.ev["lhs"]) == lf and n.ev.get("o") in ("++", "+=") and al and g.dominated_by(n, al):
+                    charged = True
+    rep.ob("C07.h", site(cof, "i_blocks comes from a counter advanced where blocks are allocated"), charged,
+           "ext2fs_iblk_add_blocks(…, counter) with the counter incremented behind the allocator in the block-walk callback")
+
     # ------------------------------------------------------------------ C07.d sources of non-determinism
     reach = _reachable(prog, main)
     n_time = 0
